@@ -8,6 +8,7 @@
   Part 2: the `count ± added ∓ removed` arithmetic of SetData (Model/SetCount.lean).
 -/
 import PonyVerif.Lemmas.SessStoreOps
+import PonyVerif.Lemmas.SetCount
 namespace PonyVerif.Props.C10
 open PonyVerif.Model.SessStore
 
@@ -126,5 +127,80 @@ example :
     outCell 0 (step r.w (.load ⟨0, 1⟩)).2.1 = some (.int 7) ∧
     isNotFound (step r.w (.load ⟨0, 2⟩)).2.1 = true ∧
     r.w.cache.modified = true := by decide
+
+end PonyVerif.Props.C10
+
+/-! ## Part 2: `SetInstance.count` / `__len__` and the `count ± added ∓ removed` arithmetic (Model/SetCount.lean) -/
+
+namespace PonyVerif.Props.C10
+open PonyVerif.Model.SetCount
+
+/-- the code with both bookkeeping repairs (fixes/C10-o2m-remove-double-bookkeeping.diff,
+    fixes/C10-m2m-reverse-side-pending-after-flush.diff) -/
+def repaired (m2m owning : Bool) : Cfg := ⟨m2m, owning, true, true⟩
+/-- the code as it is -/
+def asFound (m2m owning : Bool) : Cfg := ⟨m2m, owning, false, false⟩
+
+/-- `C10_count`, the full statement: for every kind of collection, every starting database content and every history of
+    loads, relationship assignments from the other side, `add`, `remove`, `len`, `count()` and flushes made under their
+    callers' guarantees, every `count()` and every `len()` returns the number of items the program has in the collection
+    (= the size of the collection in the database after a flush) -/
+def C10_count_full (cfg : Cfg) : Prop :=
+  ∀ (db : List Item) (ops : List Op), db.Nodup → CallersOk cfg ⟨SetData.new, db⟩ db ops →
+    ∀ c l rs, run cfg ⟨SetData.new, db⟩ db ops = .ok (c, l, rs) → ∀ p, p ∈ rs → p.1 = p.2
+
+/-- `C10_count` for every history that stays away from the two defective places (`OpSafe`), for the code as it is and for
+    every kind of collection: the history runs without an internal assertion, every read returns the number of items the
+    program has, and `database count + |added| − |removed|` is that number in every reachable state. -/
+theorem C10_count_partial (cfg : Cfg) (db : List Item) (hdb : db.Nodup) (ops : List Op)
+    (hv : ValidFrom cfg ⟨SetData.new, db⟩ db ops) :
+    ∃ c l rs, run cfg ⟨SetData.new, db⟩ db ops = .ok (c, l, rs) ∧ (∀ p, p ∈ rs → p.1 = p.2) ∧
+      ((l.length : Int) = c.db.length + c.sd.added.length - c.sd.removed.length) ∧
+      (c.sd.fully = true → c.sd.items.length = l.length) := by
+  obtain ⟨c, l, rs, e, hj, hr⟩ := run_spec cfg ops _ _ (J_init db hdb) hv
+  exact ⟨c, l, rs, e, hr, hj.card, fun hf => length_eq_of_same_members hj.ind hj.lnd (fun a => ⟨hj.itemsSub a, hj.full hf a⟩)⟩
+
+/-- with the repairs the callers' guarantees are all that is needed: the full statement holds -/
+theorem C10_count_repaired (m2m owning : Bool) : C10_count_full (repaired m2m owning) := by
+  intro db ops hdb hc c l rs hrun p hp
+  have hv : ∀ (ops : List Op) (c : Coll) (l : List Item), CallersOk (repaired m2m owning) c l ops → ValidFrom (repaired m2m owning) c l ops := by
+    intro ops
+    induction ops with
+    | nil => intro _ _ _; trivial
+    | cons op ops ih =>
+      intro c l h
+      refine ⟨h.1, by cases op <;> simp [OpSafe, repaired], ?_⟩
+      have h2 := h.2
+      cases hs : step (repaired m2m owning) c op with
+      | error e => trivial
+      | ok r => rw [hs] at h2; exact ih _ _ h2
+  obtain ⟨c', l', rs', e, hr, _⟩ := C10_count_partial _ db hdb ops (hv ops _ _ hc)
+  rw [e] at hrun; cases hrun
+  exact hr p hp
+
+/-- a one-to-many history with `remove`s, on the repaired code: hypotheses satisfiable, reads right -/
+example : CallersOk (repaired false false) ⟨SetData.new, [5]⟩ [5]
+    [.add 9, .count, .remove 9, .count, .seen 5, .remove 5, .loadAll, .flush, .count] := by decide
+example : (run (repaired false false) ⟨SetData.new, [5]⟩ [5]
+    [.add 9, .count, .remove 9, .count, .seen 5, .remove 5, .loadAll, .flush, .count]).toOption.map (·.2.2)
+    = some [(2, 2), (1, 1), (0, 0), (0, 0)] := by decide
+
+/-- The code as it is violates the full statement on a one-to-many collection: an object with one committed item (5) gets a
+    new item (9) added and removed again; `remove` records the never-saved item in `removed`, and `count()` answers
+    1 + 0 − 1 = 0 although the program has one item. -/
+theorem C10_count_full_false_remove : ¬ C10_count_full (asFound false false) := by
+  intro h
+  have := h [5] [.add 9, .remove 9, .count] (by decide) (by decide)
+    ⟨⟨[], false, some 0, [], [9]⟩, [5]⟩ [5] [(0, 1)] (by rfl) (0, 1) (by simp)
+  simp at this
+
+/-- The code as it is violates the full statement on the side of a many-to-many relationship from which the flush does not
+    collect the pairs: the item (7) is unlinked from the other side, the flush deletes the link row but keeps this side's
+    `removed`, and `count()` answers 0 + 0 − 1 = −1. -/
+theorem C10_count_full_false_flush : ¬ C10_count_full (asFound true false) := by
+  intro h
+  have := h [7] [.seen 7, .revRemove 7, .flush, .count] (by decide) (by decide)
+    ⟨⟨[], false, some (-1), [], [7]⟩, []⟩ [] [(-1, 0)] (by rfl) (-1, 0) (by simp)
+  simp at this
 
 end PonyVerif.Props.C10
